@@ -63,6 +63,9 @@ pt_ok = z3.Function("pt_ok", ValS, z3.BoolSort())  # value is a key of PERIODIC_
 pt = z3.Function("pt", ValS, ValS)  # PERIODIC_TABLE[value]
 
 
+chg_raw_value = z3.Function("chg_raw_value", ValS, z3.BoolSort())  # value == "formed" / "fleeting" / "broken" (a plain str)
+
+
 def key_const(name):
     if name not in KEY_CONSTS:
         KEY_CONSTS[name] = z3.Const(f"K_{name}", KeyS)
@@ -277,10 +280,13 @@ class ChangeEnum:
         return NotHandled
 
     def sym_contains(self, interp, x):
+        # Enum.__contains__ (3.12): true for members AND for raw member values such as the string "formed"
         if isinstance(x, ChgMember):
             return True
         if isinstance(x, ValTerm):
-            return ValS.is_VChg(x.t)
+            return z3.Or(ValS.is_VChg(x.t), chg_raw_value(x.t))
+        if isinstance(x, str):
+            return x in ("formed", "fleeting", "broken")
         return False
 
     def sym_iter(self, interp):
@@ -646,7 +652,21 @@ class DictRef:
         raise OutOfSubset("truth value of a symbolic dict")
 
     def sym_len(self, interp):
-        raise OutOfSubset("len of a symbolic dict")
+        """len(d) as an uninterpreted cardinality of the key set: >= 0, and 0 exactly for the empty dict"""
+        h = heap_of(interp)
+        dom = z3.Select(h.dom[self.t.name], self.ref)
+        card = z3.Function(f"card_{self.t.name}", dom.sort(), z3.IntSort())
+        n = card(dom)
+        tag = interp.fresh_id()
+        w = z3.Const(f"w!len{tag}", self.t.ksort)
+        x = z3.Const(f"x!len{tag}", self.t.ksort)
+        interp.assume(n >= 0)
+        interp.assume(z3.Implies(n > 0, z3.Select(dom, w)))
+        try:
+            interp.assume(z3.ForAll([x], z3.Implies(z3.Select(dom, x), n > 0), patterns=[z3.Select(dom, x)]))
+        except z3.Z3Exception:
+            interp.assume(z3.ForAll([x], z3.Implies(z3.Select(dom, x), n > 0)))
+        return n
 
     def sym_iter(self, interp):
         return [k for k, _ in self.items(interp)]
